@@ -115,7 +115,7 @@ def _shard(ctx, shard, nshards):
 
     def factory():
         @seed(runner.hseed(ctx, 8))
-        @runner.hsettings(ctx.scale(1500, 6000))
+        @runner.hsettings(ctx.scale(1500, 25000))
         @given(tapes(1500))
         def test(data):
             case = build_case(data)
